@@ -65,8 +65,11 @@ CLAIMS = {
     'C19': dict(
         text=("Machine-checked: the evaluator theorems C01_filter / C02_* carry no truthiness hypothesis; C19_operand and C19_membership "
               "(comparison / membership against ANY literal incl. 0, '', (), None, False), C19_selected (a selected expression is delivered "
-              "with its value whatever it is), C19_condition_position (only an expression in condition position is read as a boolean). "
-              "Tie: generated cases on a falsy-heavy alphabet compared row by row with the model; evidence counts falsy values routed."),
+              "with its value whatever it is), C19_condition_position (only an expression in condition position is read as a boolean), "
+              "C19_constant_condition / C19_constant_conjunct (a constant operand of and_ / or_ / not_ is read as a boolean too). "
+              "Tie: generated cases on a falsy-heavy alphabet compared row by row with the model (incl. ONE expression object used as a "
+              "condition and as a selected output / an operand, bool constants as operands of the connectives, falsy objects); evidence "
+              "counts falsy values routed."),
         design='7/C19', technique='Coq proof (unconditional forms of the evaluator theorems) + correspondence on the falsy alphabet',
         note=BASE_NOTE + " Field constraints / constructor arguments (C13/C11 positions) are covered by those properties' checks."),
 
